@@ -18,7 +18,11 @@ MANIFEST = {
             "coap_oscore_new_pdu_encrypted on generated and exhaustive short histories (I vs M vs S, state compared after every event). "
             "Forged messages come with every ciphertext length (none, 1..8 = not longer than the AEAD tag, longer): "
             "short_ciphertext_never_accepted / short_ciphertext_no_trace / accept_at_most_once_dgram over the datagram layer stepD. "
-            "Nonce reuse is additionally OBSERVED, not proved over histories: the (key, nonce) pair really handed to the AEAD "
+            "Sender side over whole histories (nrun: requests in, own requests whose tokens share the association table, responses, "
+            "notifications, Echo challenges, save watermark, crashes + restarts): own_piv_strictly_increasing / "
+            "own_nonce_never_reused (the Partial IVs used with the endpoint's own Sender ID never repeat, all histories, all "
+            "configurations), response_nonce_is_peers (what goes out without Partial IV uses a request nonce of the peer, never an "
+            "own one). The request-nonce half of nonce reuse is OBSERVED, not proved over histories: the (key, nonce) pair really handed to the AEAD "
             "(--wrap=cose_encrypt0_encrypt) for every request, response and notification an endpoint protects while requests, Observe "
             "registrations and forged requests arrive must be pairwise distinct and, without Partial IV, be the nonce of an accepted "
             "request (step theorems only: notification_fresh_piv, observe_response_fresh_piv, forged_request_no_association).",
@@ -36,7 +40,9 @@ REQUIRED_THEOREMS = ["accept_at_most_once", "recorded_at_most_once", "forged_nev
                      "fresh_in_window_accepted", "fresh_response_accepted", "no_ub_shift", "no_ub_recv", "recv_conforms_spec",
                      "spec_accept_at_most_once", "spec_forged_rejected", "piv_never_reused",
                      "short_ciphertext_never_accepted", "short_ciphertext_no_trace", "accept_at_most_once_dgram",
-                     "notification_fresh_piv", "observe_response_fresh_piv", "forged_request_no_association"]
+                     "notification_fresh_piv", "observe_response_fresh_piv", "forged_request_no_association",
+                     "client_association_never_responds", "own_piv_strictly_increasing", "own_nonce_never_reused",
+                     "response_nonce_is_peers"]
 RULE = ("recipient: histories of <= 30 protected messages delivered through coap_oscore_decrypt_pdu to ONE fresh recipient context: "
         "requests (authentic with/without/with wrong Echo, forged with any claimed Partial IV) and, interleaved, responses to an "
         "Observe registration of that endpoint (authentic notifications carrying the peer's sequence number as Partial IV, forged "
@@ -51,6 +57,9 @@ RULE = ("recipient: histories of <= 30 protected messages delivered through coap
         "0 (no payload), 1..8, 9 and more (about 45 % of the forged events, plus every length 0..10 in short contexts); "
         "sender nonces: <= 24 ops over {request / Observe registration / forged request arrives for one of 1..5 tokens, respond "
         "without Observe / notify / respond with OSCORE_SEND_PARTIAL_IV, own request}, all sequences of length <= 3 over 12 symbols; "
+        "whole sender side (endp): <= 26 ops over requests of a conforming peer (with / without / stale Echo, re-delivered), forged "
+        "requests, own requests / Observe registrations / deregistrations with tokens from the same 1..4 tokens, responses, "
+        "crashes + restarts (ssn_freq 0..2^32-1, start values next to 2^40-1), all sequences of length <= 3 over 11 symbols; "
         "the fixed corpus. "
         "non-trivial = distinct history in which at least one message was accepted / one PIV was sent")
 TRUSTED_BASE = ["Lean 4.33 kernel; axioms allowed: propext, Classical.choice, Quot.sound (audited per theorem each run)",
@@ -69,6 +78,9 @@ ASSUMPTIONS = ["a message that does not authenticate is one whose AEAD verificat
                "the value handed to the save callback is what start_seq_num is at the next start (the callback persists it)",
                "piv_never_reused: fewer than 2^63 protect/restart operations and a start value <= 2^40 (else the uint64 counter itself wraps)",
                "messages of one recipient context are processed one at a time (thread safety is C13)",
+               "endp oracle: the peer is conforming (one datagram per sequence number) and replay protection ACROSS restarts is "
+               "Appendix B.1.2's / the peer's: two responses in different lives of the endpoint under the nonce of the same request "
+               "are not judged; the application does not answer a request it was never given (dropped for a stale Echo value)",
                "compiled Lean definitions agree with the kernel's reading of them"]
 SPEC_DECISIONS = ["D15a a never-accepted authentic request older than the window may be accepted or rejected; windows above 64 are capped at 64",
                   "D15b PIV >= 2^40-1 may be rejected", "D15c Appendix B.1.2: no Echo -> challenge, wrong Echo -> not accepted, right Echo -> accepted",
